@@ -321,6 +321,12 @@ func (g *Group) Search(prefix string, cmp SearchFunc) (*GroupReader, bool, error
 		}
 		foundIndex, line, err := scanNext(r, prefix)
 		r.Close()
+		if err == io.EOF && curIndex > minIndex {
+			// No marker from this file to the end of the group (the head was rotated after the
+			// last marker had been written): what we look for lies in an earlier file.
+			maxIndex = curIndex - 1
+			continue
+		}
 		if err != nil {
 			return nil, false, err
 		}
